@@ -34,6 +34,40 @@ LCOMB = "data_structures::LinearCombination"
 BLC = "data_structures::BatchLCProof"
 
 
+def _keys_unify(wk, rk):
+    """the same key type spelled in a generic helper (`(String, T)`) and in the trait method (`(String, <P as
+    Polynomial<F>>::Point)`): component-wise equal up to bare generic parameters."""
+    import re
+
+    def comps(ty):
+        ty = ty.strip()
+        if not ty.startswith("("):
+            return [ty]
+        out, depth, cur = [], 0, ""
+        for c in ty[1:-1]:
+            if c in "<([":
+                depth += 1
+            elif c in ">)]":
+                depth -= 1
+            if c == "," and depth == 0:
+                out.append(cur.strip())
+                cur = ""
+            else:
+                cur += c
+        out.append(cur.strip())
+        return out
+
+    def bare(x):
+        return re.fullmatch(r"[A-Z][A-Za-z0-9]{0,3}", x) is not None
+    if len(wk) != len(rk):
+        return False
+    for a, b in zip(sorted(wk), sorted(rk)):
+        ca, cb = comps(a), comps(b)
+        if len(ca) != len(cb) or not all(x == y or bare(x) or bare(y) for x, y in zip(ca, cb)):
+            return False
+    return True
+
+
 def run(rep, ctx, tier):
     f = ctx.facts
     S = T.SCHEMES
@@ -46,6 +80,9 @@ def run(rep, ctx, tier):
                 rep.add("R5", "%s:anchor" % key, False, "%s not found (fail closed)" % key, None)
                 continue
             R5.check_row(rep, ctx, "R5", key, b, adt, ["EquationHasDegreeBounds"], req)
+            # a degree-bounded polynomial may stand alone in an equation only with coefficient one: refused by an assertion
+            R5.check_abort(rep, ctx, "R5a", key, b, adt, [("STATE", ("FIELD", LCOMB, "terms"), t_) for t_ in T.SCALARS],
+                           "a term's coefficient")
     # R1p: every equation is combined from a clean slate - what the loops of open_combinations / check_combinations (and
     # of the helpers they call) carry from one equation or term to the next is an accumulator read after the loop
     from ..rules import carried as R1P
@@ -84,6 +121,8 @@ def run(rep, ctx, tier):
         # the claim of every query is looked up under a walk over the query set (shared with C02)
         from ..rules import visited as R5V
         R5V.run(rep, ctx, a, "R5v")
+        # a keyed in-place update of a claimed value is driven by a duplicate-free collection of the map's keys
+        R5V.run_update_once(rep, ctx, a, "R5u")
         # no coefficient enters the decision only as "the first match" / "the last one" of its kind
         R1D.run_last_value(rep, ctx, a, "R1L")
         from ..rules import overwrite as R5O
@@ -126,7 +165,7 @@ def run(rep, ctx, tier):
                 "could not locate the writer (%d site(s), keys %s) or the reader (%d zip(s), keys %s) of BatchLCProof.evals "
                 "(fail closed)" % (wsites, sorted(wk), len(rsites), sorted(rk)), cb.span)
         return
-    ok = wk == rk
+    ok = wk == rk or _keys_unify(wk, rk)
     rep.add("R9", "default:evals-order", ok,
             ("evals are written in the order of a container keyed by %s and re-attached by zipping with a container keyed by %s"
              % (" / ".join(sorted(wk)), " / ".join(sorted(rk)))) +
